@@ -37,6 +37,33 @@ def jobs(tier):
         for sc in same:
             out.append({"prop": PROP, "cfg": cfg, "order": "asc", "base": "B1", "scripts": sc,
                         "mode": {"k": None, "cap": 2500, "depth": 60, "audit": 0}})
+    # phased histories: a first two-sided history is run to quiescence (users first, fair schedule); whatever bookkeeping it
+    # leaves behind is the start state for one further operation on either side, explored in every interleaving
+    phased = [
+        ([[["write", "a", "SAME"]], [["write", "a", "SAME"]]], "a"),
+        ([[["create", "c", "SAME"]], [["create", "c", "SAME"]]], "c"),
+        ([[["write", "a", "P1"]], [["write", "a", "P2"]]], "a"),
+        ([[["create", "c", "P1"]], [["create", "c", "P2"]]], "c"),
+        ([[["rename", "a", "c"]], [["write", "a", "P2"]]], "c"),
+        ([[["rename", "a", "c"]], [["rename", "a", "e"]]], "c"),
+        ([[["delete", "a"]], [["write", "a", "P2"]]], "a"),
+        ([[["rename", "d", "e"]], [["create", "d/x", "P2"]]], "e/b"),
+        ([[["mkdir", "c"]], [["create", "c", "P2"]]], "c"),
+        ([[["write", "d/b", "SAME"], ["rename", "d/b", "d/k"]], [["write", "d/b", "SAME"]]], "d/k"),
+    ]
+    for cfg in (["oo", "po"] if tier == "quick" else ["oo", "po", "pp", "op", "ci"]):
+        for pre, f in phased:
+            leaf = f.rsplit("/", 1)[-1]
+            for op in (["rename", f, "z"], ["write", f], ["delete", f], ["rename", f, "d/" + leaf + "2"]):
+                for side in (0, 1):
+                    sc = [[], []]
+                    sc[side] = [list(op)]
+                    out.append({"prop": PROP, "cfg": cfg, "order": "asc", "base": "B1", "pre": pre, "scripts": A.stamp(sc),
+                                "mode": {"k": None, "cap": 1500, "depth": 60, "audit": 0}})
+            for sc in ([[["rename", f, "z"]], [["write", f]]], [[["write", f]], [["rename", f, "z"]]],
+                       [[["delete", f]], [["write", f]]], [[["write", f]], [["write", f]]]):
+                out.append({"prop": PROP, "cfg": cfg, "order": "asc", "base": "B1", "pre": pre, "scripts": A.stamp(sc),
+                            "mode": {"k": None, "cap": 1500, "depth": 60, "audit": 0}})
     # application resolver answering "merged data, keep both": the engine must still go quiet (fair schedule, k=0)
     for cfg in cfgs:
         for shape, path in (("create", "c"), ("write", "a")):
